@@ -114,10 +114,19 @@ class Builder(NullCell):
         return self
 
     def store_uint(self, value: int, size: int):
+        if size == 0:
+            # (## 0) / uint0 holds the value 0 in no bits; int2ba refuses length 0
+            if value != 0:
+                raise OverflowError('unsigned integer not in range(0, 1)')
+            return self
         self._bits.extend(int2ba(value, size, signed=False))
         return self
 
     def store_int(self, value: int, size: int):
+        if size == 0:
+            if value != 0:
+                raise OverflowError('signed integer not in range(0, 1)')
+            return self
         self._bits.extend(int2ba(value, size, signed=True))
         return self
 
